@@ -247,7 +247,7 @@ def run(ctx):
                         for t_fixed in (None, None, 1e-6, 1.0 - 1e-6, 1e-9):
                             k = int(rng.integers(0, n - 1))
                             t = float(rng.uniform(0, 1)) if t_fixed is None else t_fixed
-                            x = axes_s[ax_i][k] + t * (axes_s[ax_i][k + 1] - axes_s[ax_i][k])
+                            x = float(axes_s[ax_i][k]) + t * (float(axes_s[ax_i][k + 1]) - float(axes_s[ax_i][k]))  # in double: the axis' own dtype overflows (D43)
                             x = float(min(max(x, axes_s[ax_i][k]), axes_s[ax_i][k + 1]))
                             tt = (x - float(axes_s[ax_i][k])) / (float(axes_s[ax_i][k + 1]) - float(axes_s[ax_i][k]))
                             A = np.take(data, k, axis=ax_i).astype(np.float64)
